@@ -206,6 +206,21 @@ def wrap_retransmission_convs(case):
         if seq > Q3 and (seq, ln) not in seen[key] and any(s < Q1 for s, _l in seen[key]):
             res.add(cv)
         seen[key].append((seq, ln))
+    # (c) any reordering / duplication of data segments in a direction whose sequence numbers cross the
+    #     wrap: gopacket buffers the out-of-order segment and computes its distance to the expected
+    #     sequence number with Sequence.Difference, which is off by one across the wrap
+    for (cv, d), segs in seen.items():
+        crosses = any(s > Q3 for s, _l in segs) and any(s < Q1 or ((s + l) % (1 << 32)) < Q1 for s, l in segs)
+        if not crosses:
+            continue
+        exp = None
+        disturbed = False
+        for s, l in segs:
+            if exp is not None and s != exp:
+                disturbed = True
+            exp = (s + l) % (1 << 32)
+        if disturbed:
+            res.add(cv)
     return res
 
 
